@@ -643,6 +643,12 @@ func carryRule(c *Ctx, fnName, field string, preds []startPred) int {
 		if detail == "" && !ok {
 			detail = fmt.Sprintf("%d branches on the start marker, %d consumptions of %s found (%d loads)", nTests, nUses, field, nLoads)
 		}
+		if !ok && nTests == 0 && !reanchored && len(newHelpers(p.Func(fnName))) > 0 {
+			// no branch of the function reads the marker bit any more: it is decoded by a new helper (into a small
+			// header value) and tested through that; the path rule cannot tell start from continuation
+			r.Infof("STRUCT.carry %s: %s (start: %s = %v): not decided — the start marker is not tested on the payload in this function, which was restructured around new helpers", fnName, field, sp.pattern, sp.polarity)
+			continue
+		}
 		if reanchored && !ok {
 			// the helper may receive the marker as an argument instead of reading the payload: the rule cannot see it
 			r.Infof("STRUCT.carry %s: %s (start: %s = %v): not decided in the helper (%s)", fnName, field, sp.pattern, sp.polarity, detail)
